@@ -7,7 +7,7 @@ import fstree
 from props.C07 import expect, close
 
 RULE = ("random trees x grouping keys from ext, dir, is_dir, mode, uid, length(name) and pairs x aggregate lists "
-        "x optional WHERE x optional ORDER BY on key or aggregate; (a) CLI output vs the Lean model (rows as a multiset "
+        "x optional WHERE x optional ORDER BY on key or aggregate; every fourth query leaves some or all keys out of the select list; (a) CLI output vs the Lean model (rows as a multiset "
         "unless ORDER BY), (b) oracle: groups recomputed in Python from the ungrouped rows: one row per distinct key, "
         "counts/sums add up, each group's aggregates equal those of its fibre, ORDER BY sorts the group rows. "
         "distinct = (tree, argv); nontrivial = >= 2 groups")
@@ -47,6 +47,41 @@ def run(ctx):
                     oi = r.below(len(gk) + len(aggs))
                     desc = r.chance(1, 2)
                     ordspec = (oi, desc)
+                # every fourth query does not select (all of) its keys: the partition is by the GROUP BY list all the same
+                hidden = r.chance(1, 4)
+                if hidden:
+                    aggs = [a for a in aggs if a != "avg"] or ["count"]
+                    ordspec = None
+                    shown = r.sample(gk, r.range(0, len(gk) - 1))
+                    shown = [k for k in gk if k in shown]
+                    hq = "select %s from .%s group by %s into list" % (", ".join(shown + ["%s(size)" % a for a in aggs]), where, ", ".join(gk))
+                    hqrows = "select %s, size from .%s into list" % (", ".join(gk), where)
+                    ctx.case((t, hq))
+                    hw = len(shown) + len(aggs)
+                    m, himpl = corr.run_case(ctx, snap, [hq], fmt="list", ncols=hw)
+                    hr = common.run_cli([hqrows], cwd=snap.root, scratch=scratch)
+                    hcase = {"argv": [hq], "rows_argv": [hqrows], "tree": [n["rel"] for n in snap.nodes][:40]}
+                    if himpl["status"] != 0 or hr["status"] != 0:
+                        ctx.oracle_fail("grouped query failed", hcase, detail={"status": himpl["status"], "err": himpl["err"][:200].decode("utf-8", "replace")})
+                        continue
+                    hv = hr["out"].split(b"\0")[:-1]
+                    hn = len(gk) + 1
+                    hgroups = collections.OrderedDict()
+                    for i in range(0, len(hv), hn):
+                        hgroups.setdefault(tuple(hv[i:i + len(gk)]), []).append(int(hv[i + len(gk)]))
+                    wantrows = sorted(tuple(k[gk.index(c)] for c in shown) + tuple(str(expect(a, xs)).encode() for a in aggs)
+                                      for k, xs in hgroups.items())
+                    hg = himpl["out"].split(b"\0")[:-1]
+                    gotrows = sorted(tuple(hg[i:i + hw]) for i in range(0, len(hg), hw))
+                    if len(hgroups) >= 2:
+                        ctx.distinct.add((t, hq, "nt"))
+                    ctx.count("queries_with_unselected_keys")
+                    if gotrows != wantrows:
+                        ctx.oracle_fail("grouping by a key that is not selected: rows are not one per distinct key with its fibre's aggregates", hcase,
+                                        detail={"groups_got": len(gotrows), "groups_want": len(wantrows),
+                                                "got": [[c.decode("utf-8", "replace") for c in rw] for rw in gotrows[:4]],
+                                                "want": [[c.decode("utf-8", "replace") for c in rw] for rw in wantrows[:4]]})
+                    continue
                 sel_items = gk + ["%s(size)" % a for a in aggs]
                 if ordspec:
                     order = " order by %s%s" % (sel_items[ordspec[0]], " desc" if ordspec[1] else "")
